@@ -202,12 +202,15 @@ HEADER = "From PLV Require Import Disc.ExecutorModel."
 
 
 def run(ctx):
+    import time as _t
+    ph, t0 = {}, _t.time()
     ctx.coq_props()
+    ph["props"] = round(_t.time() - t0, 1)
     rng = ctx.rng
     quick = ctx.tier == "quick"
     maxw = 8 if quick else 16
     cases = corpus()
-    n_fast = 420 if quick else 3000
+    n_fast = 330 if quick else 3000
     for _ in range(n_fast):
         be = "serial" if rng.random() < 0.22 else "cf_threadpool"
         w = 1 if be == "serial" else rng.randint(1, maxw)
@@ -232,13 +235,22 @@ def run(ctx):
         except OSError:
             pass
 
+    ph["executors"] = round(_t.time() - t0 - ph["props"], 1)
     perms = [o["perm"] if o["observed"] else fallback_perm(c) for c, o in zip(cases, obs)]
     gcs = [g_case(c, p) for c, p in zip(cases, perms)]
-    bad = set(ctx.coq_eval_cases("cases", HEADER, [f"({g}, {g_out(o['res'])})" for g, o in zip(gcs, obs)],
-                                 "check_case"))
-    bad_spec = set(ctx.coq_eval_cases("spec", HEADER,
-                                      [f"({g}, {g_out(o['direct'])})" for g, o in zip(gcs, obs)], "check_spec"))
-
+    # one vm_compute pass checks model-vs-executor and spec-vs-builtin; only on a failure are they told apart
+    both = ctx.coq_eval_cases("cases", HEADER,
+                              [f"({g}, {g_out(o['res'])}, {g_out(o['direct'])})" for g, o in zip(gcs, obs)],
+                              "fun t => andb (check_case (fst (fst t), snd (fst t))) (check_spec (fst (fst t), snd t))",
+                              chunk=120)
+    bad, bad_spec = set(), set()
+    if both:
+        sub = ctx.coq_eval_cases("recheck", HEADER, [f"({gcs[i]}, {g_out(obs[i]['res'])})" for i in both], "check_case")
+        bad = {both[j] for j in sub}
+        sub = ctx.coq_eval_cases("respec", HEADER, [f"({gcs[i]}, {g_out(obs[i]['direct'])})" for i in both], "check_spec")
+        bad_spec = {both[j] for j in sub}
+        ctx.coverage["correspondence_cases"] -= 2 * len(both)
+    ph["model_eval"] = round(_t.time() - t0 - ph["props"] - ph["executors"], 1)
     hist = {"map": 0, "starmap": 0, "submit": 0, "impl_err": 0, "builtin_err": 0, "kwargs": 0, "uneven_map": 0,
             "ragged_starmap": 0, "empty": 0, "single": 0, "nested_values": 0, "direct_oracle_applied": 0,
             "order_observed": 0, "order_permuted": 0, "persist": 0}
@@ -288,12 +300,12 @@ def run(ctx):
     if deviating:
         dev_ok = [i for i in deviating if i not in bad]
         code = {}
-        for k in FINDINGS:
-            hit = ctx.coq_eval_cases(f"cause{k}", HEADER, [gcs[i] for i in dev_ok],
-                                     f"fun c => negb (Z.eqb (cause_code c) {k})") if dev_ok else []
-            for j in hit:
-                code[dev_ok[j]] = k
-        ctx.coverage["correspondence_cases"] -= len(FINDINGS) * len(dev_ok)
+        if dev_ok:
+            raw = ctx.coq_eval_terms("cause", HEADER + "\nRequire Import List ZArith. Import ListNotations.",
+                                     ["map cause_code " + glist([gcs[i] for i in dev_ok])])[0]
+            ks = [int(x) for x in re.findall(r"-?\d+", raw.split(":")[0])]
+            assert len(ks) == len(dev_ok), raw[:200]
+            code = {i: k for i, k in zip(dev_ok, ks) if k in FINDINGS}
         for i in deviating:
             c, o = cases[i], obs[i]
             rep = {"case": c, "executor": o["res"], "exception": o["etype"], "builtin": o["direct"]}
@@ -314,6 +326,6 @@ def run(ctx):
         "model_variant": m.group(1) if m else "?",
         "findings": {FINDINGS[k][0]: v for k, v in fcount.items()},
         "deviations_from_builtins": len(deviating),
-        "executor_seconds": round(tt, 2)})
+        "executor_seconds": round(tt, 2), "phase_seconds": ph})
     for i in (0, 2, len(corpus()) + 1, len(cases) - 2):
         ctx.sample({"case": cases[i], "observed": obs[i]["res"], "builtin": obs[i]["direct"], "perm": obs[i]["perm"]})
